@@ -35,6 +35,7 @@ class Exec(ExprMixin):
         self.try_stack: list = []
         self.axioms: list = []
         self.site_counter = 0
+        self.called = set()
         # loop ordinals: pre-order (source order) numbering of for/while statements of this function
         self.loop_ids = {}
         class _V(ast.NodeVisitor):
